@@ -1,3 +1,4 @@
+import Bpmn.Props.C11MatchCurrent
 import Bpmn.Props.C11
 import Bpmn.Props.C11Current
 import Bpmn.Props.C11Match
@@ -25,3 +26,6 @@ open Bpmn.Props.C11
 #print axioms signal_matches_iff
 #print axioms instance_events_match_own_instance
 #print axioms matches_depends_on_definition
+#print axioms Bpmn.Props.C11MatchCurrent.translated
+#print axioms Bpmn.Props.C11MatchCurrent.message_match_is_source
+#print axioms Bpmn.Props.C11MatchCurrent.signal_match_is_source
